@@ -525,10 +525,21 @@ ScopeTable ==
     edif_read1 |-> [FmtScope({"edif_read"}) EXCEPT !.init = FmtInit1],
     \* ... and mid's one-pin port b is an ARRAY port: (array b 1)
     edif_read_br |-> [FmtScope({"edif_read"}) EXCEPT !.init = FmtInitBr \o << [op |-> "set_attr", kind |-> "P", x |-> 5, key |-> "scalar", val |-> FALSE] >>],
-    edif_rt_br |-> [FmtScope({"edif_rt"}) EXCEPT !.init = FmtInitBr \o << [op |-> "set_attr", kind |-> "P", x |-> 5, key |-> "scalar", val |-> FALSE] >>],
+    \* ... and (write-then-read only) the nets q[1] and m[2][0] are ASCENDING (is_downto = FALSE, as an API user or the
+    \* Verilog reader for wire [0:1] makes them): bit numbering in the file does not depend on it
+    edif_rt_br |-> [FmtScope({"edif_rt"}) EXCEPT !.init = FmtInitBr \o << [op |-> "set_attr", kind |-> "P", x |-> 5, key |-> "scalar", val |-> FALSE],
+                                                                        [op |-> "set_attr", kind |-> "C", x |-> 1, key |-> "downto", val |-> FALSE],
+                                                                        [op |-> "set_attr", kind |-> "C", x |-> 3, key |-> "downto", val |-> FALSE] >>],
     edif_rt1 |-> [FmtScope({"edif_rt"}) EXCEPT !.init = FmtInit1],
     edif_rt2 |-> [FmtScope({"edif_rt"}) EXCEPT !.init = FmtInit1 \o << Cchild(3, "u", 1), Cchild(4, "u", 3), Cchild(4, "v", 1) >>],
     edif_rt3 |-> [FmtScope({"edif_rt"}) EXCEPT !.init = FmtInit3, !.parents = {1, 4}],
+    \* sibling instances and sibling cells whose names differ only in case, the lower-case one declared first
+    edif_read_case |-> [FmtScope({"edif_read"}) EXCEPT !.ops = {}, !.parents = {},
+                          !.init = FmtInit1 \o << Cchild(3, "core", 1), Cchild(3, "Core", 2), Cchild(4, "u", 3),
+                                                  [op |-> "set_name", kind |-> "D", x |-> 2, val |-> "Leaf"] >>],
+    edif_rt_case |-> [FmtScope({"edif_rt"}) EXCEPT !.ops = {}, !.parents = {},
+                          !.init = FmtInit1 \o << Cchild(3, "core", 1), Cchild(3, "Core", 2), Cchild(4, "u", 3),
+                                                  [op |-> "set_name", kind |-> "D", x |-> 2, val |-> "Leaf"] >>],
     edif_read2 |-> [FmtScope({"edif_read"}) EXCEPT !.init = FmtInit1 \o << Cchild(3, "u", 1), Cchild(4, "u", 3), Cchild(4, "v", 1) >>],
     compare |-> [init |-> CmpInit, ops |-> {}, max |-> MaxAll(0), names |-> {}, vals |-> {}, pos |-> {NoPos},
                  createN |-> {0}, queries |-> {"C20"}, walk |-> FALSE],
@@ -537,6 +548,10 @@ ScopeTable ==
     query_nons |-> [QScope EXCEPT !.init = QInit \o << [op |-> "del_item", kind |-> "N", x |-> 1, key |-> "ns"] >>,
                                   !.queries = {"C13d"}],
     query_edif |-> [QScope EXCEPT !.init = QInitE, !.queries = {"C13e"}],
+    \* ... after REFUSED adds: a stand-alone instance / cell whose identifier is free but whose name is taken
+    query_edif_ref |-> [QScope EXCEPT !.queries = {"C13e"},
+                        !.init = QInitE \o << Cnew("I", "a"), Csetitem("I", 8, "eid", "m"), Cadd("DI", 3, 8),
+                                              Cnew("D", "ab"), Csetitem("D", 4, "eid", "l"), Cadd("LD", 1, 4) >>],
     clone_edit |-> CloneEditScope,
     clone |-> [XfScope EXCEPT !.queries = {"clone"}, !.names = {"a", U}, !.lookupVals = {"a", "leaf", "mid"},
                               !.ops = @ \cup {"remove:LD", "props:I"},
@@ -598,6 +613,16 @@ ScopeTable ==
                                 Ccreate("DP", 2, "a", 2), Ccreate("DP", 2, "b", 1), Ccreate("DC", 2, "n", 1),
                                 Ccreate("DP", 3, "t", 1), Ccreate("DC", 3, "m", 2),
                                 Cchild(2, "l", 1), Cchild(3, "m", 2), Cchild(3, "m2", 2),
+                                Csettopdef(1, 3) >>],
+    \* as xf_port2, but the shared cell mid has NO name (names are optional in the API)
+    xf_unnamed |-> [XfPortScope EXCEPT
+                    !.init = << Cnew("N", "n"), Ccreate("NL", 1, "work", 0),
+                                Ccreate("LD", 1, "leaf", 0), Ccreate("LD", 1, "mid", 0), Ccreate("LD", 1, "top", 0),
+                                Ccreate("DP", 1, "i", 1), Ccreate("DP", 1, "o", 1),
+                                Ccreate("DP", 2, "a", 2), Ccreate("DP", 2, "b", 1), Ccreate("DC", 2, "n", 1),
+                                Ccreate("DP", 3, "t", 1), Ccreate("DC", 3, "m", 2),
+                                Cchild(2, "l", 1), Cchild(3, "m", 2), Cchild(3, "m2", 2),
+                                [op |-> "del_name", kind |-> "D", x |-> 2],
                                 Csettopdef(1, 3) >>],
     \* fixed hierarchy, mid instanced twice in top; mid got its port z in front after the first instance existed
     xf_late_port |-> [XfPortScope EXCEPT
@@ -669,8 +694,19 @@ ScopeTable ==
                                   Cchild(5, "s1", 2), Cchild(5, "s2", 3),
                                   [op |-> "remove", rel |-> "DI", p |-> 4, x |-> 5] >>,
                       !.max = [N |-> 1, L |-> 1, D |-> 5, P |-> 1, C |-> 1, I |-> 8, Q |-> 1, W |-> 2], !.parents = {}],
+    \* a cell instanced twice TWO levels above the elements asked for: top/m1:m/a:a/b:leaf and top/m2:m/a:a/b:leaf
+    hier_twice |-> [HierScope({"hcheck", "C11"}, {}) EXCEPT
+                      !.init = << Cnew("N", "n"), Ccreate("NL", 1, "lib", 0), Ccreate("LD", 1, "leaf", 0), Ccreate("LD", 1, "a", 0),
+                                  Ccreate("LD", 1, "m", 0), Ccreate("LD", 1, "top", 0),
+                                  Ccreate("DP", 1, "i", 1), Ccreate("DC", 2, "w", 2), Csettopdef(1, 4),
+                                  Cchild(2, "b", 1), Cchild(3, "a", 2), Cchild(4, "m1", 3), Cchild(4, "m2", 3), Cchild(4, "x", 1),
+                                  Cconnect(1, OPin(2, 1)) >>,
+                      !.ops = {}, !.max = [N |-> 1, L |-> 1, D |-> 4, P |-> 1, C |-> 1, I |-> 6, Q |-> 1, W |-> 2], !.parents = {}],
     naming |-> NamingScope("DEFAULT", {}),
     naming_edif |-> NamingScope("EDIF", {}),
+    \* identifiers at the length limits: 255 / 256 characters, plain and with a leading &
+    naming_long |-> [NamingScope("EDIF", {}) EXCEPT !.vals = {"@255:x", "@256:x", "&256:x", "&257:x"},
+                     !.ops = {"set_eid:P", "set_eid:D", "new:P", "add:DP"}],
     \* policy adoption: an EDIF-policy netlist (library "a", cell "a" with port "a") and, built while the default was
     \* DEFAULT, a stand-alone port, a stand-alone cell with a port of its own and a stand-alone instance; they are
     \* added to the EDIF parents and then renamed / given identifiers (legal, illegal, case variants)
